@@ -94,6 +94,10 @@ def r4(ctx):
     ws = field_writes(db, "next")
     ok = len(ws) == 1 and mentions_call(ctx.sym(db).rvalue_expr(ws[0][2].rv), r"Instant::now$") and not mentions_field(ctx.sym(db).rvalue_expr(ws[0][2].rv), "period")
     ctx.check(ok, "demand:now", "demand sets next = now", db.where(line=db.line))
+    if ws:
+        dv = ctx.sym(db).rvalue_expr(ws[0][2].rv)
+        exact = dv[0] == "agg" and dv[2] == "Some" and dv[3][0][1][0] == "call" and (dv[3][0][1][1] or "").endswith("Instant::now")
+        ctx.check(exact, "demand:exactly-now", "demand sets next = Some(Instant::now()) unconditionally (%s)" % expr_str(dv)[:60], db.where(line=db.line), bad_detail="Poll::demand sets next = `%s`: a poll with no scheduled execution (next == None) cannot be demanded" % expr_str(dv)[:80])
     ib = prog.body("master::poll::Poll::is_ready")
     isym = ctx.sym(ib)
     trues = [(b, e) for b, si, st, e in ret_sites(ib, isym)]
@@ -117,6 +121,17 @@ def r4(ctx):
             ctx.require_guards(nb, b.idx, [("poll.is_ready(now)", g_any(g_bool(lambda x: mentions_call(x, r"Poll::is_ready$"), True), found_ready))], "PollMap::next:Now", "returning a poll to run")
     cb = prog.body("master::poll::PollMap::complete")
     ctx.check(bool(call_sites(cb, r"Poll::reset_next$")), "PollMap::complete", "complete reschedules from now", cb.where(line=cb.line))
+    # a failed periodic poll is rescheduled whatever the failure was (an IIN2 rejection included)
+    eb_ = prog.body("master::tasks::ReadTask::on_task_error")
+    parm = arm_edges(ctx, eb_, g_is(lambda x: x == ("param", "self"), "PeriodicPoll"))
+    if len(parm) != 1:
+        raise AnchorError("ReadTask::on_task_error: PeriodicPoll arm")
+    reg_ = region_of(eb_, parm[0])
+    cps = [c for c in call_sites(eb_, r"Association::complete_poll$") if c.idx in reg_]
+    gs_extra = []
+    for c in cps:
+        gs_extra += [g for g in ctx.guards_at(eb_, c.idx) if not (g.kind == "is" and (g.a == ("param", "self") or g.a == ("param", "association")))]
+    ctx.check(len(cps) == 1 and not gs_extra, "poll-failure:always-rescheduled", "a failed periodic poll is rescheduled under no condition other than 'the association exists'", eb_.where(parm[0].edge[1]), bad_detail="rescheduling a failed periodic poll also depends on %s: for the excluded failures the poll stays due and is re-issued back to back" % [repr(g)[:60] for g in gs_extra])
     # both completion and failure of a periodic poll reschedule it
     for fn_ in ("master::tasks::ReadTask::complete", "master::tasks::ReadTask::on_task_error"):
         bd = prog.body(fn_)
